@@ -10,6 +10,7 @@ from pathlib import Path
 prop, wt, k = sys.argv[1], Path(sys.argv[2]), sys.argv[3]
 extra = sys.argv[4:]
 V = Path('/verif')
+CHK = Path(os.environ.get('CHECK_ROOT', '/verif'))   # where ./check is run (a synced sandbox copy keeps /verif/lean undisturbed)
 src = wt / 'seed_out' / k
 env = dict(os.environ, PYTHONPATH=str(wt / 'src'))
 def sh(cmd, cwd=None, env=env, timeout=3000):
@@ -44,7 +45,7 @@ else:
     cenv = dict(os.environ, AMISC_SRC=str(scratch / 'src'))
 try:
     for p in [prop] + extra:
-        r = sh(f'./check {p} quick', V, env=cenv)
+        r = sh(f'./check {p} quick', CHK, env=cenv)
         checks[p] = {'exit': r.returncode, 'lines': [l for l in r.stdout.splitlines() if l.startswith(('VIOLATION', 'KNOWN', '['))][:4]}
 finally:
     if os.environ.get('INREPO'):
@@ -52,7 +53,7 @@ finally:
     else:
         shutil.rmtree(scratch, ignore_errors=True)
 res['checks_with_patch'] = checks
-out = V / 'seeded' / f'{prop}-{k}'
+out = V / 'seeded' / f'{prop}-{os.environ.get("OUTK", k)}'
 out.mkdir(parents=True, exist_ok=True)
 shutil.copy(src / 'patch.diff', out / 'patch.diff'); shutil.copy(src / 'demo.py', out / 'demo.py')
 meta = json.loads((src / 'meta.json').read_text())
